@@ -220,6 +220,16 @@ def report_loop(chk):
         if isinstance(n, ast.Call) and isinstance(n.func, ast.Attribute) and n.func.attr == "append" \
                 and isinstance(n.func.value, ast.Name) and in_handler(ctxmap.get(id(n), [])):
             lists.add(n.func.value.id)
+    shared = [n for n in iter_own_nodes(send.node) if isinstance(n, ast.Call) and isinstance(n.func, ast.Attribute) and n.func.attr in ("append", "add", "extend")
+              and not isinstance(n.func.value, ast.Name) and in_handler(ctxmap.get(id(n), []))]
+    for n in shared:
+        chk.bad("C08.report", "send:error-list-is-per-call", chk.where(send, n.lineno),
+                "failures are collected in %s, which outlives the call: concurrent or re-entrant sends report each other's failures (or drop them)" % unparse(n.func.value))
+    for nm in sorted(lists):
+        vals = assigned_values(send, nm)
+        if not (vals and all(isinstance(v, (ast.List, ast.Call)) and (isinstance(v, ast.List) and not v.elts or isinstance(v, ast.Call) and unparse(v.func) in ("list", "deque")) for v in vals if v is not None)):
+            chk.bad("C08.report", "send:error-list-is-per-call", chk.where(send),
+                    "the error list %s is not created empty inside send (%s)" % (nm, [v is not None and unparse(v)[:30] for v in vals]))
     loops = common.for_loops(cfg, lambda st: any(isinstance(x, ast.Name) and x.id in lists for x in ast.walk(st.iter)))
     return send, cfg, loops, lists
 
